@@ -84,9 +84,16 @@ func failingContext(p *Program, at ssa.Instruction, depth int) bool {
 				continue
 			}
 			n++
-			if _, ns := errorOfReturn(ret); ns != nonNil {
-				return false
+			v, ns := errorOfReturn(ret)
+			if ns == nonNil {
+				continue
 			}
+			// `fail := func(err error) (..., error) { cleanup(); return ..., err }`:
+			// the error handed back is a parameter that every caller passes non-nil
+			if prm, ok := v.(*ssa.Parameter); ok && depth < 2 && paramNonNilAtAllCalls(p, fn, prm) {
+				continue
+			}
+			return false
 		}
 		return n > 0
 	}
@@ -96,41 +103,7 @@ func failingContext(p *Program, at ssa.Instruction, depth int) bool {
 	if deferredOnError(fn, at) {
 		return true
 	}
-	var sites []ssa.CallInstruction
-	if par := fn.Parent(); par != nil {
-		// local closure: its direct calls in the enclosing functions
-		for _, g := range p.ZapFuncs {
-			if g != par && rootParent(g) != rootParent(fn) {
-				continue
-			}
-			for _, cs := range callSites(g) {
-				if staticCallee(cs) == fn {
-					sites = append(sites, cs)
-				}
-			}
-		}
-		// a closure that escapes (stored, passed on) has callers we do not see
-		for _, mc := range closureSites(fn) {
-			for _, r := range *mc.Referrers() {
-				switch x := r.(type) {
-				case ssa.CallInstruction:
-					if x.Common().Value != ssa.Value(mc) {
-						return false
-					}
-				case *ssa.DebugRef:
-				case *ssa.Store:
-					// the local variable holding the closure
-					if cellOf(x.Addr) == nil {
-						return false
-					}
-				default:
-					return false
-				}
-			}
-		}
-	} else {
-		sites = p.callersOf(fn)
-	}
+	sites := callSitesOf(p, fn)
 	if len(sites) == 0 {
 		return false
 	}
@@ -208,6 +181,74 @@ func deferredOnError(cl *ssa.Function, at ssa.Instruction) bool {
 			}
 		}
 		if registered {
+			return false
+		}
+	}
+	return true
+}
+
+// callSitesOf: the call sites of fn — of a local closure, its calls in the
+// functions that share its outermost parent (nil if the closure escapes); of a
+// package-level function, its callers in the call graph.
+func callSitesOf(p *Program, fn *ssa.Function) []ssa.CallInstruction {
+	if fn.Parent() == nil {
+		return p.callersOf(fn)
+	}
+	var sites []ssa.CallInstruction
+	for _, g := range p.ZapFuncs {
+		if rootParent(g) != rootParent(fn) {
+			continue
+		}
+		for _, cs := range callSites(g) {
+			if resolvedCallee(cs) == fn {
+				sites = append(sites, cs)
+			}
+		}
+	}
+	for _, mc := range closureSites(fn) {
+		for _, r := range *mc.Referrers() {
+			switch x := r.(type) {
+			case ssa.CallInstruction:
+				if x.Common().Value != ssa.Value(mc) {
+					return nil
+				}
+			case *ssa.DebugRef:
+			case *ssa.Store:
+				if cellOf(x.Addr) == nil {
+					return nil
+				}
+			case *ssa.MakeClosure:
+				// captured by another local closure that calls it
+			default:
+				return nil
+			}
+		}
+	}
+	return sites
+}
+
+// paramNonNilAtAllCalls: every call of fn passes, for parameter prm, a value
+// that is non-nil at the call site.
+func paramNonNilAtAllCalls(p *Program, fn *ssa.Function, prm *ssa.Parameter) bool {
+	idx := -1
+	for i, q := range fn.Params {
+		if q == prm {
+			idx = i
+		}
+	}
+	sites := callSitesOf(p, fn)
+	if idx < 0 || len(sites) == 0 {
+		return false
+	}
+	for _, cs := range sites {
+		args := cs.Common().Args
+		if idx >= len(args) {
+			return false
+		}
+		if _, isDefer := cs.(*ssa.Defer); isDefer {
+			return false
+		}
+		if nilnessAt(args[idx], cs.Block()) != nonNil {
 			return false
 		}
 	}
